@@ -12,6 +12,7 @@ QUICK = [
     S("fork_unstored_mid", 4, [(0, 1, A), (1, 2, A), (1, 3, A)], ["src", "call", "store", "store"], 3),
     S("out_unstored", 3, [(0, 1, A), (1, 2, A)], ["store", "store", "call"], 2),
     S("dep_edge", 3, [(0, 1, A), (0, 2, D), (1, 2, A)], ["store", "store", "store"], None),
+    S("dep_source_2pred", 4, [(0, 2, D), (1, 2, D), (2, 3, A)], ["call", "call", "src", "store"], 3),
 ]
 THOROUGH = QUICK + [
     S("diamond_unstored_mid", 4, [(0, 1, A), (0, 2, A), (1, 3, A), (2, 3, A)], ["store", "call", "call", "store"], 3),
@@ -22,7 +23,17 @@ THOROUGH = QUICK + [
     S("chain_u_first", 3, [(0, 1, A), (1, 2, A)], ["call", "store", "store"], 2),
     S("out_none_chain", 3, [(0, 1, A), (1, 2, A)], ["src", "store", "store"], None),
     S("out_mid", 3, [(0, 1, A), (1, 2, A)], ["store", "store", "store"], 1),
-    S("dep_source_2pred", 4, [(0, 2, D), (1, 2, D), (2, 3, A)], ["call", "call", "src", "store"], 3),
     S("unstored_sink_not_requested", 4, [(0, 1, A), (1, 2, A), (1, 3, A)], ["src", "store", "call", "store"], 3),
 ]
-BY_NAME = {s.name: s for s in THOROUGH}
+# shapes with literal nodes / chains of dependent sources: used by the cache checks (C03 C05 C08 C09) only
+EXTRA = [
+    S("lit_mid", 3, [(0, 1, D), (1, 2, A)], ["store", "lit", "store"], 2),
+    S("lit_mid_src", 4, [(0, 1, A), (1, 2, D), (2, 3, A)], ["src", "store", "lit", "store"], 3),
+    S("lit_dep_only", 4, [(0, 1, A), (1, 2, D), (2, 3, D)], ["src", "store", "lit", "store"], None),
+    S("lit_chain", 4, [(0, 1, D), (1, 2, D), (2, 3, D), (1, 3, A)], ["store", "lit", "lit", "store"], 3),
+    S("reg_literal", 3, [(0, 1, D), (1, 2, A)], ["store", "slit", "store"], 2),
+    S("reg_literal_first", 3, [(0, 1, A), (0, 2, A), (1, 2, A)], ["slit", "store", "call"], 2),
+    S("dep_source_chain", 4, [(0, 1, D), (1, 2, D), (2, 3, A)], ["call", "src", "src", "store"], 3),
+]
+EXTRA_QUICK = ["lit_mid", "reg_literal"]
+BY_NAME = {s.name: s for s in THOROUGH + EXTRA}
